@@ -270,6 +270,31 @@ def rule_json(ck):
     (o.ok() if len(loads) == 1 else o.fail('the result file is not read with json.load'))
 
 
+def rule_number_kinds(ck):
+    """statistics are ordinary double-precision numbers: an extended-precision numpy scalar (longdouble / float128) has no Python
+    number to turn into (`.tolist()` / `.item()` return the scalar itself), so a result holding one cannot be written"""
+    P = ck.prog
+    ck.clause('D4')
+    n = 0
+    for mod in ('csep.core.poisson_evaluations', 'csep.core.binomial_evaluations', 'csep.core.brier_evaluations', 'csep.core.catalog_evaluations',
+                'csep.utils.stats', 'csep.utils.calc'):
+        for f in P.funcs_in(mod):
+            for a in all_nodes(f):
+                if isinstance(a, (ast.Attribute, ast.Name)):
+                    q = P.canon(f, a) if isinstance(a, ast.Attribute) else None
+                    if q in ('numpy.longdouble', 'numpy.float128', 'numpy.clongdouble', 'numpy.complex256', 'numpy.longfloat'):
+                        n += 1
+                        ck.ob('C18-D4.kinds', f, stmt_of(a) or a, a).fail('%s computes in %s: the statistic reaches the result object as an extended-'
+                                                                          'precision scalar that json (and the default handler) cannot turn into a number' % (f.short, q))
+                if isinstance(a, ast.Constant) and a.value in ('longdouble', 'float128', 'g'):
+                    p_ = getattr(a, '_parent', None)
+                    if isinstance(p_, ast.keyword) and p_.arg == 'dtype':
+                        n += 1
+                        ck.ob('C18-D4.kinds', f, stmt_of(a) or a, a).fail('%s computes in dtype=%r' % (f.short, a.value))
+    o = ck.ob('C18-D4.kinds', P.func('csep.core.repositories.FileSystem.save'), 'no extended-precision dtype in the evaluation kernels', None)
+    (o.ok() if n == 0 else o.fail('%d uses of extended-precision dtypes' % n))
+
+
 def rule_region(ck):
     P = ck.prog
     ck.clause('D5')
@@ -341,4 +366,4 @@ def rule_region(ck):
     (o.fail('region classes %s write a class_id the catalog loader does not know' % miss) if miss else o.ok('%d region class(es) with class_id, all known' % len(writers)))
 
 
-RULES = [rule_factory, rule_fields, rule_sites, rule_json, rule_region]
+RULES = [rule_factory, rule_fields, rule_sites, rule_json, rule_number_kinds, rule_region]
